@@ -61,6 +61,11 @@ CHECKS = {
          "Random search over directory trees, inclusion graphs (chains, diamonds, cycles, #once) and path spellings incl. hostile ones; the expected marker sequence or rejection is decided by the reference model; one case in twelve is also run by the real binary in a scratch project with a sentinel above it. The (function, file length, start, length) table of incbin/incbinstr/inchexstr is enumerated completely for lengths 0..12.",
          "The precedence between #once and cycle detection for a #once file that includes itself is not fixed by the statement and is excluded (counted); empty ranges, start = size and empty files are run but not asserted.",
          "6/C14"),
+ "C15": ("exploration",
+         "model-based property testing of scope trees: every reference is spelled in one of its valid ways from its point of use and resolved by a reference scope model; plus a metamorphic variant that moves address-free constants",
+         "Random search over label/constant trees to depth 4 with repeated local names, forward and backward references at every dot level, constant chains in any order and single injected faults, compared bit-for-bit and symbol-for-symbol with the reference; moved-constant variants must assemble identically. Exploration.",
+         "Constants open scopes exactly like labels (documented by the repository's tests); only scope-neutral moves are generated.",
+         "6/C15"),
  "C08": ("exploration",
          "metamorphic/differential property testing: the same job under the four optimisation-switch combinations x five iteration budgets must agree on success, bits and symbols",
          "Differential run of the real code against itself over generated (size-static and cascading) programs, the whole test corpus and token-mutated corpus programs. No model is trusted; exploration of a sampled program space.",
